@@ -6,7 +6,7 @@ PARTS = {
     "C01": [
         {"test": "TestVfC01Delivery",
          "quick": {"checks": 1920, "shards": 16, "timeout": 900},
-         "thorough": {"checks": 16000, "shards": 16, "timeout": 3400}},
+         "thorough": {"checks": 32000, "shards": 16, "timeout": 3400}},
     ],
     "C16": [
         {"test": "TestVfC16Blacklist",
@@ -16,15 +16,15 @@ PARTS = {
     "C05": [
         {"test": "TestVfC05Converge",
          "quick": {"checks": 3600, "shards": 12, "timeout": 900},
-         "thorough": {"checks": 16000, "shards": 16, "timeout": 3000}},
+         "thorough": {"checks": 32000, "shards": 16, "timeout": 3000}},
         {"test": "TestVfC05Announce",
          "quick": {"checks": 16000, "shards": 8, "timeout": 600},
-         "thorough": {"checks": 300000, "shards": 16, "timeout": 2400}},
+         "thorough": {"checks": 900000, "shards": 16, "timeout": 2400}},
     ],
     "C14": [
         {"test": "TestVfC14Net", "replay_runs": 5,
          "quick": {"checks": 1080, "shards": 12, "timeout": 900},
-         "thorough": {"checks": 8000, "shards": 16, "timeout": 3000}},
+         "thorough": {"checks": 16000, "shards": 16, "timeout": 3000}},
         {"test": "TestVfC14Shutdown", "replay_runs": 20,
          "quick": {"checks": 24000, "shards": 8, "timeout": 900, "gomaxprocs": [16, 2, 16, 4]},
          "thorough": {"checks": 600000, "shards": 16, "timeout": 3000, "gomaxprocs": [16, 2, 1, 4]}},
@@ -35,7 +35,7 @@ PARTS = {
          "thorough": {"shards": 1, "timeout": 900, "fuzztime": "180s"}},
         {"test": "TestVfC12Wire", "inflight": True,
          "quick": {"checks": 1800, "shards": 12, "timeout": 900},
-         "thorough": {"checks": 16000, "shards": 16, "timeout": 3000}},
+         "thorough": {"checks": 32000, "shards": 16, "timeout": 3000}},
         {"test": "TestVfC12Hostile", "inflight": True, "stall_is_violation": True,
          "quick": {"checks": 6000, "shards": 8, "timeout": 900},
          "thorough": {"checks": 200000, "shards": 16, "timeout": 3000}},
@@ -43,25 +43,25 @@ PARTS = {
     "C13": [
         {"test": "TestVfC13Reclaim",
          "quick": {"checks": 6000, "shards": 8, "timeout": 900},
-         "thorough": {"checks": 100000, "shards": 16, "timeout": 3000}},
+         "thorough": {"checks": 300000, "shards": 16, "timeout": 3000}},
         {"test": "TestVfC13Net",
          "quick": {"checks": 1440, "shards": 12, "timeout": 900},
-         "thorough": {"checks": 12000, "shards": 16, "timeout": 3000}},
+         "thorough": {"checks": 24000, "shards": 16, "timeout": 3000}},
     ],
     "C03": [
         {"test": "TestVfC03Signing",
          "quick": {"checks": 12000, "shards": 8, "timeout": 600},
-         "thorough": {"checks": 300000, "shards": 16, "timeout": 2400}},
+         "thorough": {"checks": 900000, "shards": 16, "timeout": 2400}},
     ],
     "C04": [
         {"test": "TestVfC04Verdicts",
          "quick": {"checks": 12000, "shards": 8, "timeout": 600},
-         "thorough": {"checks": 200000, "shards": 16, "timeout": 2400}},
+         "thorough": {"checks": 800000, "shards": 16, "timeout": 2400}},
     ],
     "C19": [
         {"test": "TestVfC19Trace",
          "quick": {"checks": 12000, "shards": 8, "timeout": 600},
-         "thorough": {"checks": 200000, "shards": 16, "timeout": 2400}},
+         "thorough": {"checks": 800000, "shards": 16, "timeout": 2400}},
     ],
     "C18": [
         {"test": "TestVfC18Seq", "kind": "exhaustive",
@@ -69,62 +69,62 @@ PARTS = {
          "thorough": {"shards": 16, "timeout": 1500, "params": {"maxlen": 10}}},
         {"test": "TestVfC18Forced",
          "quick": {"checks": 600, "shards": 2, "timeout": 300},
-         "thorough": {"checks": 20000, "shards": 8, "timeout": 1500}},
+         "thorough": {"checks": 80000, "shards": 8, "timeout": 1500}},
         {"test": "TestVfC18Node",
          "quick": {"checks": 8000, "shards": 4, "timeout": 600, "gomaxprocs": [16, 2, 16, 1]},
-         "thorough": {"checks": 300000, "shards": 16, "timeout": 2400, "gomaxprocs": [16, 2, 4, 1]}},
+         "thorough": {"checks": 900000, "shards": 16, "timeout": 2400, "gomaxprocs": [16, 2, 4, 1]}},
     ],
     "C06": [
         {"test": "TestVfC06Recipients",
          "quick": {"checks": 16000, "shards": 8, "timeout": 600},
-         "thorough": {"checks": 300000, "shards": 16, "timeout": 2400}},
+         "thorough": {"checks": 900000, "shards": 16, "timeout": 2400}},
     ],
     "C09": [
         {"test": "TestVfC09Thresholds",
          "quick": {"checks": 16000, "shards": 8, "timeout": 600},
-         "thorough": {"checks": 300000, "shards": 16, "timeout": 2400}},
+         "thorough": {"checks": 1200000, "shards": 16, "timeout": 2400}},
     ],
     "C08": [
         {"test": "TestVfC08Backoff",
          "quick": {"checks": 24000, "shards": 8, "timeout": 600},
-         "thorough": {"checks": 400000, "shards": 16, "timeout": 2400}},
+         "thorough": {"checks": 1200000, "shards": 16, "timeout": 2400}},
     ],
     "C07": [
         {"test": "TestVfC07Mesh",
          "quick": {"checks": 24000, "shards": 8, "timeout": 600},
-         "thorough": {"checks": 400000, "shards": 16, "timeout": 2400}},
+         "thorough": {"checks": 800000, "shards": 16, "timeout": 2400}},
     ],
     "C17": [
         {"test": "TestVfC17aMcache",
          "quick": {"checks": 20000, "shards": 4, "timeout": 300},
-         "thorough": {"checks": 800000, "shards": 16, "timeout": 1500}},
+         "thorough": {"checks": 1600000, "shards": 16, "timeout": 1500}},
         {"test": "TestVfC17bGossip",
          "quick": {"checks": 16000, "shards": 8, "timeout": 600},
-         "thorough": {"checks": 300000, "shards": 16, "timeout": 2400}},
+         "thorough": {"checks": 900000, "shards": 16, "timeout": 2400}},
     ],
     "C02": [
         {"test": "TestVfC02aTimeCache",
          "quick": {"checks": 20000, "shards": 4, "timeout": 300},
-         "thorough": {"checks": 800000, "shards": 16, "timeout": 1500}},
+         "thorough": {"checks": 1600000, "shards": 16, "timeout": 1500}},
         {"test": "TestVfC02bPipeline",
          "quick": {"checks": 12000, "shards": 8, "timeout": 600},
-         "thorough": {"checks": 200000, "shards": 16, "timeout": 2400}},
+         "thorough": {"checks": 600000, "shards": 16, "timeout": 2400}},
         {"test": "TestVfC02cBatch",
          "quick": {"checks": 8000, "shards": 4, "timeout": 600},
-         "thorough": {"checks": 400000, "shards": 16, "timeout": 2400}},
+         "thorough": {"checks": 800000, "shards": 16, "timeout": 2400}},
     ],
     "C20": [
         {"test": "TestVfC20bNode", "inflight": True, "stall_is_violation": True,
          "quick": {"checks": 12000, "shards": 8, "timeout": 600, "gomaxprocs": [16, 2, 16, 4]},
-         "thorough": {"checks": 200000, "shards": 16, "timeout": 2400, "gomaxprocs": [16, 2, 1, 4]}},
+         "thorough": {"checks": 800000, "shards": 16, "timeout": 2400, "gomaxprocs": [16, 2, 1, 4]}},
         {"test": "TestVfC20aSeqno",
          "quick": {"checks": 12000, "shards": 4, "timeout": 300, "gomaxprocs": [16, 2, 1, 4]},
-         "thorough": {"checks": 600000, "shards": 16, "timeout": 1500, "gomaxprocs": [16, 2, 1, 4]}},
+         "thorough": {"checks": 1200000, "shards": 16, "timeout": 1500, "gomaxprocs": [16, 2, 1, 4]}},
     ],
     "C10": [
         {"test": "TestVfC10Score",
          "quick": {"checks": 60000, "shards": 4, "timeout": 600},
-         "thorough": {"checks": 1600000, "shards": 16, "timeout": 2400}},
+         "thorough": {"checks": 3200000, "shards": 16, "timeout": 2400}},
     ],
     "C15": [
         {"test": "TestVfC15Seq", "kind": "exhaustive",
@@ -132,10 +132,10 @@ PARTS = {
          "thorough": {"shards": 16, "timeout": 1500, "params": {"maxlen": 9}}},
         {"test": "TestVfC15Conc",
          "quick": {"checks": 4000, "shards": 4, "timeout": 300, "gomaxprocs": [1, 16]},
-         "thorough": {"checks": 200000, "shards": 16, "timeout": 1500, "gomaxprocs": [1, 16, 2, 4]}},
+         "thorough": {"checks": 800000, "shards": 16, "timeout": 1500, "gomaxprocs": [1, 16, 2, 4]}},
         {"test": "TestVfC15Forced",
          "quick": {"checks": 400, "shards": 2, "timeout": 300},
-         "thorough": {"checks": 20000, "shards": 8, "timeout": 1500}},
+         "thorough": {"checks": 80000, "shards": 8, "timeout": 1500}},
         {"test": "TestVfC15Stress",
          "quick": {"skip": True},
          "thorough": {"checks": 4800, "shards": 16, "timeout": 1500}},
@@ -146,7 +146,7 @@ PARTS = {
          "thorough": {"checks": 800000, "shards": 16, "timeout": 1500}},
         {"test": "TestVfC11Send",
          "quick": {"checks": 12000, "shards": 8, "timeout": 300},
-         "thorough": {"checks": 200000, "shards": 16, "timeout": 1500}},
+         "thorough": {"checks": 600000, "shards": 16, "timeout": 1500}},
     ],
 }
 
